@@ -241,10 +241,29 @@ one in sixteen is a head-only 1xx/204/304 response followed by the pause (send()
             if wb() != 0 || resp.status().as_u16() != status {
                 return Outcome::fail("C19:send-read-past-head", format!("status {} returned after waiting for more bytes behind the head of a {status} response", resp.status()));
             }
-            let mut b = [0u8; 16];
-            return match resp.read(&mut b) {
+            let mut rbuf = [0u8; 16];
+            let first = match resp.read(&mut rbuf) {
                 Ok(0) if wb() == 0 => Outcome::Pass,
                 other => Outcome::fail("C19:bodiless:read-waited", format!("first read on a {status} response: {other:?}, reads that reached the pause: {}", wb())),
+            };
+            if !matches!(first, Outcome::Pass) {
+                return first;
+            }
+            // the status helper answers from the head that has arrived: a 4xx / 5xx / unfollowed 3xx response whose body has
+            // not started yet (length-delimited, chunked or close-delimited by turns) is an error at once
+            let (st2, framing2): (u16, &str) = [(404, "Content-Length: 120\r\n"), (500, "Transfer-Encoding: chunked\r\n"), (503, ""), (300, "Content-Length: 7\r\n")][b as usize % 4];
+            let head2 = format!("HTTP/1.1 {st2} X\r\n{framing2}\r\n").into_bytes();
+            let mut events2 = seg_upto(&case.seg, &head2, &[head2.len()], head2.len());
+            events2.push(Ev::Pause);
+            let (res2, net2, _guard2) = get_scripted(events2, |rb| rb);
+            let wb2 = || net2.lock().unwrap().dials[0].1.lock().unwrap().would_block;
+            ctx.label("error_for_status-before-any-body-octet");
+            return match res2.map(|r| r.error_for_status()) {
+                Ok(Err(e)) if wb2() == 0 && matches!(e.kind(), attohttpc::ErrorKind::StatusCode(c) if c.as_u16() == st2) => Outcome::Pass,
+                other => Outcome::fail(
+                    "C19:error_for_status-waited",
+                    format!("error_for_status() on a {st2} response whose body has not started: {:?}, reads that reached the pause: {}", other.map(|r| r.map(|x| x.status().as_u16()).map_err(|e| format!("{e:?}"))).map_err(|e| format!("{e:?}")), wb2()),
+                ),
             };
         }
         let mut payload = case.payload.bytes();
